@@ -239,7 +239,7 @@ def c12(tier, replay):
         return run.finish()
     h = vcommon.build_harness()
     q = tier == "quick"
-    scen = make_scenarios(h, 12 if q else 150, 8 if q else 40, 8 if q else 60, 6 if q else 60, "C12", 24 if q else 200)
+    scen = make_scenarios(h, 12 if q else 150, 8 if q else 40, 8 if q else 60, 6 if q else 60, "C12", 90 if q else 600)
     totals, summ = run_trees(run, "C12", h, scen, "small,mate,rep,game,fam", 3, 60000, 400000, "trees")
     if totals.get("stree", 0) < 5:
         raise ToolError("coverage hole: fewer than 5 trees recorded")
